@@ -9,6 +9,8 @@ def run(ctx):
     from . import layout as _layout
     _layout.rule_variable_layout(ctx)
     _layout.rule_clause_templates(ctx)  # the clauses each encoder mode issues are the reference encoding's
+    from . import statics as _statics
+    _statics.rule_encoder_state_reset(ctx)  # a stateful encoder starts every encoding from scratch
     accept.rule_no_extension_only_stable(ctx)
     from . import splits
     splits.rule_split_contents(ctx)
